@@ -31,6 +31,7 @@ def plan(tier):
 def required(tier):
     return {
         "parsers.built_next_to_a_corrupted_cache": 50,
+        "grammars.with_layout_rule": 20,
         "nontrivial": 3000 if tier == "quick" else 30000,
         "parsers.constructed": 500,
         "parsers.deterministic": 50,
@@ -96,7 +97,15 @@ def one_grammar(ctx, mon, g, alphabet, maxlen):
             if ctx.rng.random() < 0.4:
                 meta[pi] = ctx.rng.choice(["nops", "nopse", "nops, nopse"])
         ctx.count("grammars.with_nops_marks")
-    text = g.text(inline=ctx.rng.random() < 0.3, prod_meta=meta)
+    if "WS" not in g.terms and "LAYOUT" not in g.nts and not glrwork.has_overlap(g) and ctx.rng.random() < 0.1:
+        # a ws-equivalent LAYOUT rule: the layout table and the main table (of either kind) are
+        # then built from one Grammar object
+        from pgverif.props.c08 import WS_LAYOUT, WS_TERMS
+
+        text = g.text(prod_meta=meta, extra_rules=WS_LAYOUT.strip(), extra_terms=WS_TERMS)
+        ctx.count("grammars.with_layout_rule")
+    else:
+        text = g.text(inline=ctx.rng.random() < 0.3, prod_meta=meta)
     if len(alphabet) >= 3 and maxlen > 4:
         maxlen = 4
     inputs = [(w, glrwork.relayout(w, ctx.rng) if ctx.rng.random() < 0.4 else w) for w in cfg.all_strings(alphabet, maxlen)]
